@@ -438,6 +438,7 @@ var c07BugOps = []c07Op{
 	{"elem/message-number", true, fieldOp("message", `5`, 3, 6)},
 	{"elem/message-object", true, fieldOp("message", `{}`, 3, 6)},
 	{"elem/message-control-chars", true, fieldOp("message", `"bell \u0007 esc \u001b"`, 3, 6)},
+	{"elem/message-c1-control-chars", true, fieldOp("message", `"one-character CSI \u009b31m and NEL \u0085"`, 3, 6)},
 	{"elem/files-string", true, fieldOp("files", `"x"`, 3, 6)},
 	{"elem/files-invalid-hash", true, fieldOp("files", `["zz"]`, 3, 6)},
 	{"elem/files-number-items", true, fieldOp("files", `[1,2]`, 3, 6)},
@@ -446,6 +447,7 @@ var c07BugOps = []c07Op{
 	{"elem/title-number", true, fieldOp("title", `3`, 2)},
 	{"elem/title-two-lines", true, fieldOp("title", `"a\nb"`, 2)},
 	{"elem/title-control-chars", true, fieldOp("title", `"a\u0000b"`, 2)},
+	{"elem/title-c1-control-chars", true, fieldOp("title", `"a\u0085b"`, 2)},
 	{"elem/status-invalid", true, fieldOp("status", `7`, 4)},
 	{"elem/status-zero", true, fieldOp("status", `0`, 4)},
 	{"elem/status-three", true, fieldOp("status", `3`, 4)}, // one past the last valid status
@@ -453,6 +455,7 @@ var c07BugOps = []c07Op{
 	{"elem/status-string", true, fieldOp("status", `"closed"`, 4)},
 	{"elem/label-empty", true, fieldOp("added", `[""]`, 5)},
 	{"elem/label-control-chars", true, fieldOp("added", `["a\u0001"]`, 5)},
+	{"elem/label-c1-control-chars", true, fieldOp("added", `["a\u009d"]`, 5)},
 	{"elem/label-number", true, fieldOp("added", `[3]`, 5)},
 	// well-formed label changes that git-bug's own front-ends never write (they de-duplicate): acceptable, but then
 	// the bug must still compile
